@@ -6,7 +6,7 @@
 #  and runs the property's quick check against it.
 set -u
 prop=$1; name=${2:-$1}
-src=${SRC_PREFIX:-/tmp/wt-}$prop/_seeded
+src=${SRC_DIR:-${SRC_PREFIX:-/tmp/wt-}$prop/_seeded}
 dst=/verif/seeded/$name
 [ -f "$src/patch.diff" ] || { echo "no patch in $src"; exit 2; }
 tmp=$(mktemp -d /tmp/adopt.XXXXXX)
